@@ -877,8 +877,10 @@ def get_unique_seq(onsets, offsets, unique_onset_idxs=None, return_diff=False):
 
     first_time = np.min(onsets)
 
-    # ensure last score time is later than last onset
-    if np.max(offsets) - np.max(onsets) < 1e-6:
+    # ensure last score time is later than last onset (the times come from
+    # single precision columns: allow a few units in the last place)
+    eps = 4 * np.finfo(np.float32).eps * max(1.0, np.abs(onsets).max())
+    if np.max(offsets) - np.max(onsets) < max(1e-6, eps):
         # last note without duration (grace note)
         last_time = np.max(onsets) + 1
     else:
